@@ -101,6 +101,17 @@ Outcome(rs, p) ==
   ELSE IF Decide(rs, NoticePkt(p)) = "accept" THEN "notice"  \* the notice is filtered too
   ELSE "silent"
 
+\* The same packet arriving (or being sent) with no hops left.  The rule list is consulted FIRST - a dropped packet stays
+\* silent and a rejected one is answered "blocked by firewall" whatever its hop count; only a packet the rules let pass
+\* and that is for another node expires: the source is told "message expired" (a notice, filtered like any other),
+\* unless the packet is itself a notice.
+Outcome0(rs, p) ==
+  LET o == Outcome(rs, p) IN
+  IF o # "pass" \/ p.tonode = Self THEN o
+  ELSE IF p.fromservice = "unreach" THEN "silent"
+  ELSE IF Decide(rs, NoticePkt(p)) = "accept" THEN "expired"
+  ELSE "silent"
+
 \* ---------------------------------------------------------------- vector families
 Pkt(fn, tn, fs, ts) == [fromnode |-> fn, tonode |-> tn, fromservice |-> fs, toservice |-> ts]
 
@@ -150,8 +161,8 @@ NoPkt == Pkt("", "", "", "")
 Vec(fam, rs, p) ==
   [fam |-> fam, rules |-> rs, pkt |-> p,
    expect |-> IF ParseOK(rs)
-              THEN [parse |-> "ok", decision |-> Decide(rs, p), outcome |-> Outcome(rs, p)]
-              ELSE [parse |-> "refused", decision |-> "-", outcome |-> "-"]]
+              THEN [parse |-> "ok", decision |-> Decide(rs, p), outcome |-> Outcome(rs, p), outcome0 |-> Outcome0(rs, p)]
+              ELSE [parse |-> "refused", decision |-> "-", outcome |-> "-", outcome0 |-> "-"]]
 
 SingleVectors ==
   UNION { IF RuleOK(r) THEN { Vec("single", <<r>>, p) : p \in SinglePkts(r) }
@@ -189,6 +200,14 @@ NoNoticeAboutNotice ==
   vec.expect.parse = "ok" /\ vec.pkt.fromservice = "unreach" => vec.expect.outcome # "notice"
 
 NoticeOnlyOnReject == vec.expect.outcome = "notice" => vec.expect.decision = "reject"
+
+\* the hop count never changes what the rules decide: without hops left a packet is treated as with hops, except that a
+\* packet the rules let pass expires instead of being forwarded
+RulesBeforeHopCount ==
+  vec.expect.parse = "ok" =>
+    /\ (vec.expect.outcome # "pass" => vec.expect.outcome0 = vec.expect.outcome)
+    /\ (vec.expect.outcome = "pass" => vec.expect.outcome0 \in {"pass", "expired", "silent"})
+W_NoExpired == vec.expect.outcome0 # "expired"
 
 \* anti-vacuity witnesses (each must be violated by some vector)
 W_NoNotice       == vec.expect.outcome # "notice"
